@@ -435,6 +435,6 @@ pub fn work(gen: &Gen, cfg: &WorkerCfg) {
 }
 
 pub fn load_corpus() -> Result<Corpus, String> {
-    let dir = std::env::var("VERIF_CORPUS").unwrap_or_else(|_| "/verif/corpus".to_string());
+    let dir = std::env::var("VERIF_CORPUS").unwrap_or_else(|_| format!("{}/corpus", crate::verif_root()));
     Corpus::load(&dir)
 }
